@@ -59,6 +59,16 @@ impl<R: io::Read, D> CsvLineParser<R, D> {
     }
 }
 
+#[cfg(sancane_precis_verif)]
+impl<R: io::Read, D> CsvLineParser<R, D> {
+    /// Verification hook (only with `--cfg sancane_precis_verif`): create a
+    /// parser over an arbitrary reader, so that a simulated `io::Read` can
+    /// drive the very same line iterator that `from_path` builds over a file.
+    pub fn from_reader(rdr: R) -> CsvLineParser<R, D> {
+        CsvLineParser::new(None, rdr)
+    }
+}
+
 impl<R: io::Read, D: FromStr<Err = Error>> Iterator for CsvLineParser<R, D> {
     type Item = Result<D, Error>;
 
